@@ -9,6 +9,13 @@ single try range (thorough: full alphabet x single tries, {div-int, goto, if} x 
 goto is encoded 10t forward, goto/16 backward, goto/32 to itself, so all three encodings occur.
 Plus every method of the shipped DEX files (quick: classes.dex), instruction list by the independent reader
 gen/dexread + decoder gen/dalvik.
+Additional plans (checks/cfgcommon.extra_plans): two packed or two sparse switches sharing ONE payload (every ordered
+pair, kept when the inherited relative targets land on instruction starts); the payload tables in the MIDDLE of the code
+(slot 0, goto/16 over the tables, slot 1...); and a bounded HISTORY family: analyse, apply ONE edit of the instruction
+list through EncodedMethod.set_instructions() (prepend 1 nop, prepend 2 nops, insert a nop behind the final return,
+replace the list by itself), build a NEW MethodAnalysis of the same EncodedMethod and judge it against the reference
+decoded from the edited bytes (keys end in ":after:set_instructions"; histories in which a switch offset becomes
+2 mod 4 are counted, not judged: misaligned payloads are not well-formed).
 Each generated method is serialised by gen/dexgen (256 static methods per DEX), loaded with DEX() + Analysis() and the
 basic blocks are compared with ref/cfg.judge_c10:
   blocks contiguous, disjoint, ordered, covering [0, code size) and yielding exactly the instructions there;
@@ -19,6 +26,7 @@ Nothing is demanded about how nop spacers / payload pseudo-instructions are grou
 from checks import cfgcommon as CC
 from ref import cfg as R
 
+HISTORY_SKIP_UNALIGNED = True
 PROPERTY = "C10"
 LEVEL = "exploration"
 RULE = ("all skeletons of <=3 (thorough <=4) slots over an 8-kind slot alphabet with branch/switch targets over all slots; "
@@ -54,7 +62,7 @@ def plans(ctx):
         p.append({"id": "try2-n3-TGI", "n": 3, "kinds": "TGI", "tries": (2, True)})
     else:
         p.append({"id": "try1-n3-TRGIK", "n": 3, "kinds": "TRGIK", "tries": (1, False)})
-    return p
+    return p + CC.extra_plans(ctx)
 
 
 def space(ctx):
